@@ -95,7 +95,12 @@ func c06Ops() []c06Op {
 	ops = append(ops,
 		c06Op{"(render)", func(m *mail.Msg) error { var b bytes.Buffer; _, err := m.WriteTo(&b); return err }, func(ref map[string][]na) bool { return true }},
 		c06Op{"(NewReader)", func(m *mail.Msg) error { _ = m.NewReader(); return nil }, func(ref map[string][]na) bool { return true }},
-		c06Op{"(GetRecipients, GetSender)", func(m *mail.Msg) error { _, _ = m.GetRecipients(); _, _ = m.GetSender(true); _, _ = m.GetSender(false); return nil }, func(ref map[string][]na) bool { return true }},
+		c06Op{"(GetRecipients, GetSender)", func(m *mail.Msg) error {
+			_, _ = m.GetRecipients()
+			_, _ = m.GetSender(true)
+			_, _ = m.GetSender(false)
+			return nil
+		}, func(ref map[string][]na) bool { return true }},
 	)
 	type hdr struct {
 		name    string
